@@ -924,4 +924,61 @@ theorem applyAll_entc : ∀ (rs : List BlockMods) (ir ir' : IR),
       have e1 := applyMods_entc blk.off i r.func r.mods ir ir1 (some r.block) 0 hmod hact hI hn1 hm he
       exact ih ir1 ir' h hI1 hok1 hnd1 (hn2 ir1 hmod) m1 e1
 
+/-! ### entry promotion -/
+
+/-- entries after `remove_function_block_aux` were entries before -/
+theorem removeFunctionBlock_isEntry (x : IR) (b c g : Nat) (h : (x.removeFunctionBlock b).isEntry c g) : x.isEntry c g := by
+  unfold IR.removeFunctionBlock at h
+  split at h
+  · exact h
+  · rename_i f hf
+    simp only [] at h
+    split at h
+    · unfold IR.isEntry at h ⊢
+      simp only [] at h
+      rw [dropMember_lookup] at h
+      exact h.1
+    · unfold IR.isEntry at h ⊢
+      simp only [] at h
+      by_cases hg : g = f
+      · subst hg; rw [alookup_adel_same] at h; simp at h
+      · rw [alookup_adel_other _ _ _ hg, dropMember_lookup] at h
+        exact h.1
+
+/-- **deleting an entry block promotes the next block only if it is in the same function**: every
+entry after `_update_functions_aux_data` was an entry before, except the next block - and that one
+only when the removed block was an entry of its function, the next block is code and the cache
+puts both in the same function -/
+theorem removeFunctions_isEntry (x : IR) (blk : Block) (n : Option Nat) (nc : Bool) (c g : Nat)
+    (h : (x.removeFunctions blk n nc).isEntry c g) :
+    x.isEntry c g ∨ (c = n.getD 0 ∧ nc = true ∧ x.isEntry blk.id g ∧ alookup blk.id x.fbb = some g ∧
+      x.sameFunction blk.id (n.getD 0) = true) := by
+  unfold IR.removeFunctions at h
+  split at h
+  · exact Or.inl h
+  · split at h
+    · exact Or.inl h
+    · rename_i f hf
+      simp only [] at h
+      have h1 := removeFunctionBlock_isEntry _ _ _ _ h
+      split at h1
+      · rename_i hpromote
+        unfold IR.isEntry at h1
+        simp only [] at h1
+        unfold setAdd at h1
+        by_cases hg : g = f
+        · subst hg
+          rw [alookup_aset_same] at h1
+          simp only [Option.getD_some] at h1
+          rcases (mem_addUnique _ _ _).mp h1 with h2 | h2
+          · exact Or.inl h2
+          · right
+            simp only [Bool.and_eq_true] at hpromote
+            refine ⟨h2, hpromote.1.2, ?_, hf, hpromote.2⟩
+            unfold IR.isEntry
+            simpa using hpromote.1.1
+        · rw [alookup_aset_other _ _ _ _ hg] at h1
+          exact Or.inl h1
+      · exact Or.inl h1
+
 end GtirbVerif.IR
